@@ -126,6 +126,13 @@ SetsClose(c) == \/ NonRawKV(c) /\ c.a[1] = NConnection /\ c.a[2] = BClose
                 \/ (EntryTable[c.e].cls = "fixed" /\ EntryTable[c.e].fx = NConnection)
 ConnConflict(calls) == IF \E i, j \in DOMAIN calls : i < j /\ StoresKeepAlive(calls[i]) /\ SetsClose(calls[j]) THEN "yes" ELSE "no"
 
+\* framingconflict = "yes": SetContentLength(negative) selected chunked framing and a LATER call stores a
+\* Content-Length (generic Set/Add/..., or SetContentLengthBytes): known finding C05-contentlength-after-chunked.
+NegLen(c) == c.e \in {"ReqHeader.SetContentLength", "RespHeader.SetContentLength"} /\ c.a[1] # << >> /\ c.a[1][1] = 45
+StoresCL(c) == \/ NonRawKV(c) /\ c.a[1] = NContentLength
+               \/ c.e \in {"ReqHeader.SetContentLengthBytes", "RespHeader.SetContentLengthBytes"}
+FramingConflict(calls) == IF \E i, j \in DOMAIN calls : i < j /\ NegLen(calls[i]) /\ StoresCL(calls[j]) THEN "yes" ELSE "no"
+
 RawCookie(c) == /\ EntryTable[c.e].tgt = "req"
                 /\ \/ Cls(c) = "reqcookie" /\ \E j \in DOMAIN c.a : HasCRLF(c.a[j])
                    \/ IsKV(c) /\ c.a[1] = NCookie /\ HasCRLF(c.a[2])
@@ -143,7 +150,8 @@ EmptyTrailerName(c) == \/ Cls(c) = "trailer" /\ c.a[1] = << >>
 EmptyTrailer(calls) == IF \E i \in DOMAIN calls : EmptyTrailerName(calls[i]) THEN "yes" ELSE "no"
 
 Progs(S, body) == SetToSeq({[tgt |-> EntryTable[p[1].e].tgt, body |-> body, calls |-> p, rawsink |-> RawSink(p),
-                            emptytrailer |-> EmptyTrailer(p), connconflict |-> ConnConflict(p)] : p \in S})
+                            emptytrailer |-> EmptyTrailer(p), connconflict |-> ConnConflict(p),
+                            framingconflict |-> FramingConflict(p)] : p \in S})
 TgtSeq == <<"req", "resp", "ctx">>
 RECURSIVE Cat(_)
 Cat(ss) == IF ss = << >> THEN << >> ELSE ss[1] \o Cat(Tail(ss))
@@ -157,7 +165,8 @@ SeqDups     == Cat([k \in 1 .. 3 |-> Progs(DupPairs(TgtSeq[k]), "stream") \o Pro
 AllProgs == SeqSingles \o SeqSpecials \o SeqPairs \o SeqNoBody \o SeqDups
 Cases == [i \in DOMAIN AllProgs |-> [id |-> i, tgt |-> AllProgs[i].tgt, body |-> AllProgs[i].body,
                                      calls |-> AllProgs[i].calls, rawsink |-> AllProgs[i].rawsink,
-                                     emptytrailer |-> AllProgs[i].emptytrailer, connconflict |-> AllProgs[i].connconflict]]
+                                     emptytrailer |-> AllProgs[i].emptytrailer, connconflict |-> AllProgs[i].connconflict,
+                                     framingconflict |-> AllProgs[i].framingconflict]]
 
 ASSUME \A i \in DOMAIN AllProgs : \A j \in DOMAIN AllProgs[i].calls : WellFormedCall(AllProgs[i].calls[j])
 ASSUME ndJsonSerialize(IOEnv.VERIF_OUT, Cases)
